@@ -33,9 +33,9 @@ def gen_bytes(r, small=False):
 def gen_line_payload(r):
     """payload of a simple string / error that is well-formed (no CRLF inside)"""
     b = gen_bytes(r, small=True)
-    while b"\r\n" in b:
-        b = b.replace(b"\r\n", b"\r")
-    return b
+    if r.chance(3, 4):
+        b = b.replace(b"\r", b"").replace(b"\n", b"")
+    return b      # a quarter keep CR/LF: the serializer must write them as spaces (framing safety)
 
 
 INTS = [0, 1, -1, 9, 10, -10, 99, 100, 255, 256, 65535, 65536, 2**31 - 1, -2**31, 2**31, 2**63 - 1, -2**63, -2**63 + 1, 12345678901234]
@@ -96,6 +96,16 @@ def show(f, fmt=None):
     if t in ("a", "m", "S"):
         return "( %s%s )" % (t, "".join(" " + show(x, fmt) for x in f[1]))
     raise ValueError(f)
+
+
+def sanitized(f):
+    """what a frame parses back to: CR/LF in simple-string / error payloads are written as spaces"""
+    t = f[0]
+    if t in ("s", "e"):
+        return (t, f[1].replace(b"\r", b" ").replace(b"\n", b" "))
+    if t in ("a", "m", "S"):
+        return (t, [sanitized(x) for x in f[1]])
+    return f
 
 
 def canon_lean_frames(s):
@@ -276,7 +286,7 @@ class C20:
         enc = unhx(a)
         junk = self.rng.choice([b"", b"", b"+x\r\n", b"\r\n", b"*", bytes([self.rng.below(256)])])
         kind, body = self.cmp_parse(enc + junk, "rt")
-        want = "ok %s %d" % (canon_nan(show(f)), len(enc))
+        want = "ok %s %d" % (canon_nan(show(sanitized(f))), len(enc))
         if kind in ("ok", "need", "err") and body != want:
             self.oracle_failures.append(("roundtrip", {"op": "parse(ser f ++ junk)", "frame": show(f), "bytes": hx(enc + junk), "impl": body, "want": want,
                                                        "why": "parse(ser f) is not (f, |ser f|)"}))
